@@ -472,7 +472,28 @@ def evaluate(chk, cases, stats, gf_budget, sample_rate=0.04):
     return stats["failing"]
 
 
+UNMODELLED = {"replaceiv": "ReplaceInductionVariablesTrans", "hoistbound": "HoistLoopBoundExprTrans",
+              "tile2d": "LoopTiling2DTrans"}
+
+
+def prepare_unmodelled(payload):
+    """transformations without a Lean model: only the execution oracle (replay of findings)"""
+    from psyclone.psyir import transformations as T
+    from psyclone.psyir.transformations import TransformationError
+    c = Case(payload["kind"], None, payload["target"], payload.get("options"), False, src=payload["src"])
+    psyir, routine = minif.parse_program(c.src)
+    loop = body_loops(routine)[c.target[0]]
+    try:
+        getattr(T, UNMODELLED[c.kind])().apply(loop, c.opts)
+        c.accepted, c.new_src = True, minif.write_program(psyir)
+    except TransformationError as e:
+        c.accepted, c.error = False, str(e.value)
+    return c
+
+
 def prepare_replay(payload):
+    if payload["kind"] in UNMODELLED:
+        return prepare_unmodelled(payload)
     c = Case(payload["kind"], None, payload["target"], payload.get("options"),
              payload.get("literal_negative_step", False), src=payload["src"])
     return run_real(c)          # fparser is not thread-safe: always sequential
@@ -532,7 +553,8 @@ def run(chk):
         for f in sorted(os.listdir(cdir)):
             if f.endswith(".json"):
                 pl = json.load(open(os.path.join(cdir, f)))
-                c = Case(pl["kind"], G.make_prog(__import__("random").Random(0)), pl["target"], pl.get("options"),
+                prog = G.P5(["s0", "s1", "t"], ["a", "b", "c"], ["m"] if ":: m" in pl["src"] else [], [], [], {})
+                c = Case(pl["kind"], prog, pl["target"], pl.get("options"),
                          pl.get("literal_negative_step", False), src=pl["src"])
                 corpus.append(c)
     evaluate(chk, corpus + make_cases(chk, n), stats, gf_budget)
